@@ -24,7 +24,7 @@ META = {
              "non-trivial = >=2 non-empty partitions and >=2 jobs open at once"),
     "abstract_measure": "distinct (terminal op, entry point) pairs",
     "gates": {"quick": {"groupby_disk": 100, "groupby_tasks": 100, "mp_boundary": 1000, "empty_partition": 1000,
-                        "multi_open": 2000},
+                        "multi_open": 2000, "big_repartition": 200},
               "thorough": {"groupby_disk": 100}},
     "anchors": ["dask/bag/core.py", "dask/bag/chunk.py"],
     "real": ["dask.bag.core (all listed operations, groupby_disk / groupby_tasks, reductions)",
@@ -68,23 +68,32 @@ def run_one(tape, cfg):
 
     out = Outcome()
     with tape.span("workload"):
-        nparts = 1 + tape.draw(6, "nparts")
+        # "big": one or two long partitions split into many pieces (split() computes float boundaries)
+        big = tape.chance(1, 8, "big")
+        nparts = 1 + tape.draw(2 if big else 6, "nparts")
         parts = []
         for _ in range(nparts):
-            m = 0 if tape.chance(1, 4, "empty") else 1 + tape.draw(cfg["maxlen"], "plen")
+            if big:
+                m = 1 + tape.draw(64, "plen")
+            else:
+                m = 0 if tape.chance(1, 4, "empty") else 1 + tape.draw(cfg["maxlen"], "plen")
             parts.append([tape.draw(9, "elem") for _ in range(m)])
         steps = [TRANSFORMS[tape.draw(len(TRANSFORMS), "tr")] for _ in range(tape.draw(4, "nsteps"))]
+        if big:
+            steps = ["repartition"] + steps[:1]
         term = TERMINALS[tape.draw(len(TERMINALS), "term")]
         split_every = (None, 2, 3)[tape.draw(3, "split")]
         max_branch = 2 + tape.draw(2, "mb")
         gnp = 1 + tape.draw(4, "gnp")
         k = 1 + tape.draw(4, "k")
         other = [tape.draw(6, "o") for _ in range(1 + tape.draw(4, "no"))]
-        rep = 1 + tape.draw(5, "rep")
+        rep = 2 + tape.draw(40, "rep") if big else 1 + tape.draw(5, "rep")
     wl = {"parts": parts, "steps": steps, "terminal": term, "split_every": split_every,
           "max_branch": max_branch, "groupby_npartitions": gnp, "k": k, "other": other, "repartition": rep}
     out.decoded = wl
     out.wdigest = dg(wl)
+    if big:
+        out.probe("big_repartition")
     has_empty = any(not p for p in parts)
     if has_empty:
         out.probe("empty_partition")
